@@ -681,7 +681,7 @@ impl ImageXObject {
             StreamFilter::DCTDecode(ref p) => dct_decode(&data, p)?,
             StreamFilter::JPXDecode => jpx_decode(&data)?,
             StreamFilter::JBIG2Decode(ref p) => {
-                let global_data = p.globals.as_ref().map(|s| (**s).data(resolve)).transpose()?;
+                let global_data = p.globals.map(|r| resolve.get(r).and_then(|s| (*s).data(resolve))).transpose()?;
                 jbig2_decode(&data, global_data.as_deref().unwrap_or_default())?
             },
             StreamFilter::FlateDecode(ref p) => flate_decode(&data, p)?,
